@@ -5,13 +5,13 @@ import gen_params_facts
 LEVEL = 'proof'
 FACTS = os.path.join(vlib.COQ, 'gen', 'ParamsFacts.v')
 DOC = {
- 'Set128': dict(n=630, a_in=2.0**-15, N=1024, k=1, a_bk=2.0**-25, l=3, Bgbit=7, t=8, basebit=2),
- 'Set80': dict(n=500, a_in=2.44e-5, N=1024, k=1, a_bk=7.18e-9, l=2, Bgbit=10, t=8, basebit=2),
+ 'Set128': dict(n=630, a_in=2.0**-15, N=1024, k=1, a_bk=2.0**-25, l=3, Bgbit=7, t=8, basebit=2, amax=0.012467, amax_bk=0.012467),
+ 'Set80': dict(n=500, a_in=2.44e-5, N=1024, k=1, a_bk=7.18e-9, l=2, Bgbit=10, t=8, basebit=2, amax=0.012467, amax_bk=0.012467),
 }
 
 def parse(line):
     t = line.split()
-    if t[0] == 'H': t = t[3:]
+    if t[0] in ('H', 'T'): t = t[3:]
     lam = int(t[0])
     if t[1] != 'OK': return lam, None
     v = [int(x) for x in t[2:]]
@@ -25,7 +25,7 @@ def run(ctx):
     ctx.assumptions = ['F1-F3 (DESIGN.md C19) are the formalisation of "the library\'s own noise formulas"; facts come from the built library (toolchain trusted)']
     bdir = vlib.build_lib('optim')
     exe = vlib.build_harness('params_dump.cpp', bdir, 'spqlios-fma', 'optim')
-    out = subprocess.run([exe], stdout=subprocess.PIPE, text=True, timeout=300).stdout.splitlines()
+    out = subprocess.run([exe], stdout=subprocess.PIPE, text=True, timeout=300, env=dict(os.environ, MALLOC_PERTURB_='165')).stdout.splitlines()
     readme = open(os.path.join(vlib.REPO, 'README.md')).read()
     facts = gen_params_facts.gen(out, readme)
     # the facts file is regenerated on every run (untracked; a committed baseline copy only serves setup)
@@ -43,8 +43,12 @@ def run(ctx):
     # independent oracle over the dump
     seen = set()
     for line in out:
+        if line.startswith('X '):
+            t = line.split(); xv = int(t[2]) / 2.0**int(t[3]) if len(t) >= 4 else None; ctx.count(('X', line))
+            if xv is None or abs(xv - 0.012467) > 1e-15: ctx.report('set-field-ext_amax', 'lambda=%s: alpha_max of the extracted LWE parameters is %r, the sets document 0.012467 ("max standard deviation for a 1/4 message space")' % (t[1], xv), {'observed': line})
+            continue
         lam, d = parse(line)
-        hist = line.split()[:3] if line.startswith('H ') else None
+        hist = line.split()[:3] if line.startswith(('H ', 'T ')) else None
         ctx.count((lam, tuple(hist or []))); seen.add(lam)
         if hist and hist[2] == '-1': ctx.report('history-abort', 'the selector died during request history %s' % hist[1], {'history': hist[1]}); continue
         exp = None if (lam <= 0 or lam > 128) else ('Set80' if lam <= 80 else 'Set128')
@@ -62,7 +66,7 @@ def run(ctx):
         for f, v in doc.items():
             ov = d[f]
             ok = (abs(ov - v) <= 1e-15 * abs(v)) if isinstance(v, float) else ov == v
-            if not ok: ctx.report('set-field-' + f, 'lambda=%d%s: field %s = %r, documented %r (%s)' % (lam, (' (request number %s of in-process history %s: 0 = 1..128 ascending, 1 = descending, 2 = 80,128,80,81,1,128,100,50,81,80)' % (hist[2], hist[1])) if hist else '', f, ov, v, exp), {'lambda': lam, 'field': f, 'observed': ov, 'documented': v, 'history': hist})
+            if not ok: ctx.report('set-field-' + f, 'lambda=%d%s: field %s = %r, documented %r (%s)' % (lam, (' (request number %s of in-process history %s%s: 0 = 1..128 ascending, 1 = descending, 2 = 80,128,80,81,1,128,100,50,81,80)' % (hist[2], hist[1], ', each request made by a helper thread that has exited before the set is read' if hist[0] == 'T' else '')) if hist else '', f, ov, v, exp), {'lambda': lam, 'field': f, 'observed': ov, 'documented': v, 'history': hist})
         if not (d['N'] == 1024 and d['l'] * d['Bgbit'] <= 32 and d['t'] * d['basebit'] <= 31 and d['ext_n'] == d['k'] * d['N'] and d['Bg'] == 1 << d['Bgbit']
                 and d['halfBg'] == d['Bg'] // 2 and d['maskMod'] == d['Bg'] - 1 and d['kpl'] == (d['k'] + 1) * d['l']
                 and d['offset'] == (sum(1 << (32 - (i + 1) * d['Bgbit']) for i in range(d['l'])) * d['halfBg']) % 2**32
